@@ -14,7 +14,11 @@ import (
 	"encoding/binary"
 	"encoding/json"
 	"fmt"
+	"github.com/sassoftware/relic/v8/config"
+	"github.com/sassoftware/relic/v8/xverif/keys"
+	"github.com/sassoftware/relic/v8/xverif/tsa"
 	"io"
+	"net/http/httptest"
 	"os"
 	"os/exec"
 	"path/filepath"
@@ -67,6 +71,7 @@ type base struct {
 	signed                bool
 	upload                []byte // client transform output for this artefact (nil if the transform is the identity)
 	fields                []int  // offsets of plausible offset/length fields
+	stamped               bool   // carries an RFC 3161 token
 }
 
 func TestMain(m *testing.M) {
@@ -74,7 +79,7 @@ func TestMain(m *testing.M) {
 		childMain()
 		return
 	}
-	rec.Rule("cases = (entry point in {verify with integrity and chain, is-signed probe, client transform read to the end, server-side Sign on an upload body, type detection, certificate loader}, signer module forced or detected, input) where input = 1-4 structure-aware corruptions (offset/length-looking fields set to boundary values, bit flips, truncation, chunk duplication / deletion / zeroing / insertion, cross-format splices) of a valid unsigned or signed artefact of every supported type (fixtures and generated) or of the upload stream its client transform produces; each case runs in an isolation child under a 2 GiB address-space cap; oracle = child alive, no panic in any goroutine, total allocation <= 96 MiB + 512 x input size, CPU <= 15 s + 20 ms/KiB, not blocked; container-aware corruption (ZIP member re-stored with a valid CRC, xar table of contents re-deflated, XML tree mutations) in one case of four; non-trivial = the corrupted input differs from its base and still carries the type's magic (the parser proper is entered) or is an upload body; distinct = hash of (entry, module, input)")
+	rec.Rule("cases = (entry point in {verify with integrity and chain, is-signed probe, client transform read to the end, server-side Sign on an upload body, type detection, certificate loader}, signer module forced or detected, input) where input = 1-4 structure-aware corruptions (offset/length-looking fields set to boundary values, bit flips, truncation, chunk duplication / deletion / zeroing / insertion, cross-format splices) of a valid unsigned or signed artefact of every supported type (fixtures and generated) or of the upload stream its client transform produces; each case runs in an isolation child under a 2 GiB address-space cap; oracle = child alive, no panic in any goroutine, total allocation <= 96 MiB + 512 x input size, CPU <= 15 s + 20 ms/KiB, not blocked; deterministic sweeps over the signature words (overflowing values) and over every algorithm / content-type OID (unknown values) of the signed and time-stamped bases; container-aware corruption (ZIP member re-stored with a valid CRC, xar table of contents re-deflated, XML tree mutations) in one case of four; non-trivial = the corrupted input differs from its base and still carries the type's magic (the parser proper is entered) or is an upload body; distinct = hash of (entry, module, input)")
 	rec.Assume("resource proportionality is checked against fixed generous multiples, not asymptotically; wall-clock time is never used as a verdict (a blocked child is recognised by zero CPU progress while sleeping)")
 	var err error
 	workDir, err = os.MkdirTemp("", "c11-")
@@ -84,6 +89,16 @@ func TestMain(m *testing.M) {
 	env, err = pipe.Setup(workDir)
 	if err != nil {
 		panic(err)
+	}
+	// a time-stamping authority, so that signed bases also carry RFC 3161 tokens
+	if a, err := tsa.NewAuthority(keys.Key("p256b"), env.Inter.Key, env.Inter.Cert, time.Now().Add(-time.Hour), "c11 tsa"); err == nil {
+		srv := httptest.NewServer(a.Handler(func(int, string) tsa.Behaviour { return tsa.Valid }))
+		cfg := env.Cfg
+		cfg.Timestamp = &config.TimestampConfig{URLs: []string{srv.URL}, Timeout: 60}
+		cfg.Keys["rsa2048a-ts"] = &config.KeyConfig{Token: "file", KeyFile: cfg.Keys["rsa2048a"].KeyFile, X509Certificate: cfg.Keys["rsa2048a"].X509Certificate, Roles: []string{"signer"}, Timestamp: true}
+		if err := env.Install(cfg); err != nil {
+			panic(err)
+		}
 	}
 	if err := loadBases(); err != nil {
 		fmt.Println("VERIF-INCONCLUSIVE: cannot prepare base artefacts:", err)
@@ -137,6 +152,16 @@ func loadBases() error {
 			}
 			os.Remove(p)
 			os.Remove(out)
+			// signed + time-stamped sibling (types whose signature is a PKCS#7 or XML-DSig)
+			if _, ok := env.Cfg.Keys["rsa2048a-ts"]; ok && !arts.PgpFormats[format] && format != "pgp" {
+				os.WriteFile(p, a.Data, 0o644)
+				if err := env.SignLib(&pipe.Req{SigType: a.SigType, In: p, Key: "rsa2048a-ts"}); err == nil {
+					if blob, err := os.ReadFile(p); err == nil && bytes.Contains(blob, []byte{0x2a, 0x86, 0x48, 0x86, 0xf7, 0x0d, 0x01, 0x09, 0x10, 0x01, 0x04}) {
+						add(&base{format: format, sigType: a.SigType, name: a.Name, data: blob, signed: true, stamped: true})
+					}
+				}
+				os.Remove(p)
+			}
 		}
 	}
 	// already-signed fixtures of the repository
@@ -810,6 +835,68 @@ func TestC11_FieldSweep(t *testing.T) {
 		}
 	}
 	rec.Set("field_sweep_cases", swept)
+}
+
+// algorithmOIDs finds DER OBJECT IDENTIFIER TLVs of the algorithm and content-type arcs
+// (PKCS, ANSI X9.62, NIST hash algorithms, OIW, Microsoft), i.e. the ones parsers switch on.
+func algorithmOIDs(d []byte) []int {
+	prefixes := [][]byte{{0x2a, 0x86, 0x48, 0x86, 0xf7, 0x0d}, {0x2a, 0x86, 0x48, 0xce, 0x3d}, {0x60, 0x86, 0x48, 0x01, 0x65, 0x03, 0x04}, {0x2b, 0x0e, 0x03, 0x02}, {0x2b, 0x06, 0x01, 0x04, 0x01, 0x82, 0x37}}
+	var out []int
+	for i := 0; i+4 < len(d); i++ {
+		if d[i] != 0x06 || d[i+1] < 5 || d[i+1] > 12 || i+2+int(d[i+1]) > len(d) {
+			continue
+		}
+		for _, p := range prefixes {
+			if bytes.HasPrefix(d[i+2:], p) {
+				out = append(out, i)
+				break
+			}
+		}
+	}
+	return out
+}
+
+// TestC11_OIDSweep: every algorithm / content-type identifier inside a signed base is
+// replaced, one at a time, by an identifier nobody knows (last arc 0x7f, or bit 3 of it
+// flipped: SHA-256 becomes SHA3-256) and the result verified and probed. Identifiers in
+// unauthenticated places (time-stamp tokens, certificates) are reached before any
+// signature check can stop the parser.
+func TestC11_OIDSweep(t *testing.T) {
+	shard, shards := evid.EnvInt("VERIF_SHARD", 0), evid.EnvInt("VERIF_SHARDS", 1)
+	maxPerBase := evid.EnvInt("VERIF_C11_SWEEP_OIDS", 120)
+	idx, swept := 0, 0
+	for _, b := range bases {
+		if !b.signed {
+			continue
+		}
+		offs := algorithmOIDs(b.data)
+		if len(offs) > maxPerBase {
+			step := len(offs)/maxPerBase + 1
+			var thin []int
+			for i := 0; i < len(offs); i += step {
+				thin = append(thin, offs[i])
+			}
+			offs = thin
+		}
+		for _, off := range offs {
+			last := off + 1 + int(b.data[off+1])
+			for _, v := range []byte{0x7f, b.data[last] ^ 0x08} {
+				for _, entry := range []string{"verify", "issigned"} {
+					idx++
+					if idx%shards != shard {
+						continue
+					}
+					data := append([]byte(nil), b.data...)
+					data[last] = v
+					swept++
+					if msg := sweepCase(b, entry, data, fmt.Sprintf("oid@%d last arc %#x -> %#x", off, b.data[last], v)); msg != "" {
+						t.Fatal(msg)
+					}
+				}
+			}
+		}
+	}
+	rec.Set("oid_sweep_cases", swept)
 }
 
 func sweepCase(b *base, entry string, data []byte, op string) string {
